@@ -117,7 +117,7 @@ structure Item where
   outs : List Outcome := []   -- outcomes of the runs of the user function still to come (then `ok` forever)
   cur : Outcome := .ok        -- outcome of the run in progress / of the last run
   ret : Option Ret := none    -- the error returned by the blocking variant
-  cret : Option CtrlRet := none -- what was sent on ctrlFnError
+  cret : Option CtrlRet := none -- the result of the routine as startCtrlFn will send it on ctrlFnError
   http : Nat := 0             -- status of the HTTP response (api)
   reps : Nat := 0             -- reports made by this item
   pans : Nat := 0             -- panics raised in this item's function
@@ -126,6 +126,7 @@ structure Item where
   executing : Bool := false   -- Task.executing
   canceled : Bool := false    -- Task.canceled
   hasFn : Bool := true        -- control routine present (nil routines are "run" without a goroutine)
+  sent : Bool := false        -- the result has been sent on ctrlFnError
   deriving Repr, Inhabited
 
 /-- Effect of one atomic step on the shared state. -/
@@ -266,23 +267,25 @@ def mtStep (it : Item) : Option (Item Ã— Eff) :=
   | 6 => some ({ it with pc := 7 }, { dg := -1 })
   | _ => none
 
-/-- startCtrlFn for prep / start (worker.go:149-189). -/
+/-- startCtrlFn for prep / start (worker.go:149-210). The result is sent on `ctrlFnError` last, after the
+    flag has been cleared and `checkIfStopComplete` has run. -/
 def ctrlStep (env : Env) (it : Item) : Option (Item Ã— Eff) :=
   match it.pc with
   | 0 =>
     if !env.ctrlFree then none
     else if it.hasFn then some ({ it with pc := 1 }, { setC := some true })           -- m.ctrlFuncRunning.Set()
-    else some ({ it with pc := 4, cret := some .nil }, { setC := some false })         -- fn == nil: UnSet, then check
+    else some ({ it with pc := 4, cret := some .nil }, { setC := some false })         -- fn == nil: UnSet, check, send nil
   | 1 => some ({ it.take with pc := 2 }, {})
-  | 2 =>
+  | 2 =>                                                            -- deferred recover: report, err = "panic: â€¦"
     match recoverCtrl it.cur with
     | (r, some rp) => some ({ it with pc := 3, cret := some r, reps := it.reps + 1 }, { rep := some rp })
     | (r, none) => some ({ it with pc := 3, cret := some r }, {})
   | 3 => some ({ it with pc := 4 }, { setC := some false })
   | 4 => some ({ it with pc := 5 }, { check := true })
+  | 5 => some ({ it with pc := 6, sent := true }, {})               -- ctrlFnError <- err
   | _ => none
 
-/-- Module.stop + stopAllTasks (modules.go:267-351) with the stop routine through startCtrlFn. -/
+/-- Module.stop + stopAllTasks (modules.go:302-400) with the stop routine through startCtrlFn. -/
 def stopStep (env : Env) (it : Item) : Option (Item Ã— Eff) :=
   match it.pc with
   | 0 => if !env.ctrlFree then none
@@ -290,7 +293,7 @@ def stopStep (env : Env) (it : Item) : Option (Item Ã— Eff) :=
   | 1 => some ({ it with pc := 2 }, { setStop := true })
   | 2 => some ({ it with pc := 3 }, { setCtx := true })
   | 3 => if it.hasFn then some ({ it with pc := 4 }, { setC := some true })
-         else some ({ it with pc := 7, cret := some .nil }, { setC := some false })       -- fn == nil: UnSet, then check
+         else some ({ it with pc := 7, cret := some .nil }, { setC := some false })       -- fn == nil: UnSet, check, send nil
   | 4 => some ({ it.take with pc := 5 }, {})
   | 5 =>
     match recoverCtrl it.cur with
@@ -298,6 +301,7 @@ def stopStep (env : Env) (it : Item) : Option (Item Ã— Eff) :=
     | (r, none) => some ({ it with pc := 6, cret := some r }, {})
   | 6 => some ({ it with pc := 7 }, { setC := some false })
   | 7 => some ({ it with pc := 8 }, { check := true })
+  | 8 => some ({ it with pc := 9, sent := true }, {})               -- ctrlFnError <- err (stopAllTasks receives it after stopComplete)
   | _ => none
 
 def itemStep (env : Env) (it : Item) (ch : Bool) : Option (Item Ã— Eff) :=
@@ -316,8 +320,8 @@ def Item.done (it : Item) : Bool :=
   | .svc => it.pc == 7
   | .task => it.pc == 7 || it.pc == 8
   | .mt _ => it.pc == 7
-  | .ctrl => it.pc == 5
-  | .stop => it.pc == 8
+  | .ctrl => it.pc == 6
+  | .stop => it.pc == 9
 
 /-- pc at which the item is inside its user function (held by the scenario until released). -/
 def Item.inFn (it : Item) : Bool :=
@@ -412,7 +416,7 @@ def St.report (s : St) (r : Report) : St :=
   if s.feed.length < s.cap then { s with last := some r, feed := s.feed ++ [r] }
   else { s with last := some r, dropped := s.dropped + 1 }
 
-/-- `checkIfStopComplete` (modules.go:252-265). -/
+/-- `checkIfStopComplete` (modules.go:263-300): evaluated and signalled under the module lock, hence one atomic step. -/
 def St.check (s : St) : St :=
   if s.stopFlag && !s.c && s.w == 0 && s.t == 0 && s.m == 0 then
     (if s.stopCompleted then s else { s with stopCompleted := true })
@@ -503,7 +507,7 @@ def runCtrl (k : Kind) (fn : Option Outcome) : CtrlRet Ã— List Report :=
   let s0 : St := { cap := 16, items := [it] }
   let s1 := runHeld 16 s0 0
   let s2 := runHeld 16 (finishItem s1 0) 0
-  ((s2.items[0]?.bind (Â·.cret)).getD .nil, s2.feed)
+  ((s2.items[0]?.bind (fun it => if it.sent then it.cret else none)).getD .nil, s2.feed)
 
 /-! ### Lifecycle passes: what Start / ManageModules / Shutdown return (start.go, stop.go, mgmt.go)
 
@@ -583,7 +587,7 @@ def startRound (mgmt : Bool) (needed : List String) (ms : List Mod) : List Mod Ã
   ms.foldl (fun (acc : List Mod Ã— List CtrlRet Ã— List Report) m =>
     if wanted mgmt needed m && m.status == 2 && m.deps.all (fun d => statusOf ms d â‰¥ 5) then
       let r := runCtrl .ctrl m.start
-      (acc.1 ++ [{ m with status := if r.1.isErr then 4 else 5 }], acc.2.1 ++ [r.1], acc.2.2 ++ routineReports r)
+      (acc.1 ++ [{ m with status := if r.1.isErr then 2 else 5 }], acc.2.1 ++ [r.1], acc.2.2 ++ routineReports r)  -- a failed start returns the module to Offline
     else (acc.1 ++ [m], acc.2.1, acc.2.2)) ([], [], [])
 
 /-- One round of the stop pass: every Online module that is no longer wanted and has no running dependant.
